@@ -138,10 +138,15 @@ class LeanDriver:
 
     def __init__(self, exe="wiredrv"):
         path = os.path.join(LEAN_DIR, ".lake", "build", "bin", exe)
-        if not os.path.exists(path):
-            ok, out = lean_build([exe])
-            if not ok:
-                raise RuntimeError("cannot build " + exe + "\n" + out[-3000:])
+        # the driver imports tables regenerated from /repo: make sure they exist, then let lake decide
+        # whether anything has to be rebuilt (a no-op when the model and the tables are unchanged)
+        if not os.path.exists(os.path.join(LEAN_DIR, "YardlGenerated", "Pipeline.lean")):
+            import gen_tables
+            with Scratch("vf-gen-") as gsc:
+                gen_tables.generate(gsc)
+        ok, out = lean_build([exe])
+        if not ok:
+            raise RuntimeError("cannot build " + exe + "\n" + out[-3000:])
         self.p = subprocess.Popen([path], stdin=subprocess.PIPE, stdout=subprocess.PIPE)
 
     def ask(self, req):
